@@ -1,0 +1,22 @@
+//go:build verif
+
+package flamego
+
+import "github.com/flamego/flamego/internal/route"
+
+// simYieldFn is the cooperative yield callback installed by a deterministic
+// simulator. It only exists when built with the "verif" build tag.
+var simYieldFn func(site int)
+
+// SetSimYield installs the callback that is invoked at every numbered yield
+// site of the request path. Passing nil removes it.
+func SetSimYield(f func(site int)) {
+	simYieldFn = f
+	route.SimYield = f
+}
+
+func simYield(site int) {
+	if simYieldFn != nil {
+		simYieldFn(site)
+	}
+}
